@@ -174,8 +174,9 @@ theorem om_parse_total_witness : ¬ om_parse_total_full := by
 
 /-! ## findings about faithfulness -/
 
-/-- F21: the text format cannot parse the negative timestamp the text encoder writes; OpenMetrics can. -/
-theorem text_negative_timestamp_witness :
+/-- F21: the text format cannot parse the negative timestamp the text encoder writes; OpenMetrics can
+    (code before fixes/F21.patch; `repoF21Fixed` says which code the model follows). -/
+theorem text_negative_timestamp_witness : repoF21Fixed = false →
     encodeText [⟨.gauge, kw "m", none, none, [{ kind := .g, lbls := [], ts := some (-1), created := none, val := oneBits }]⟩] = some (kw "# TYPE m gauge\nm 1 -1\n")
     ∧ (parseText false (kw "# TYPE m gauge\nm 1 -1\n")).2 = .err
     ∧ (parseText false (kw "# TYPE m gauge\nm 1 1\n")).2 = .eof
